@@ -48,6 +48,19 @@ func (c *Ctx) run(rule string) []Obligation {
 	}
 	o := r.Fn(c)
 	sort.SliceStable(o, func(i, j int) bool { return o[i].Key < o[j].Key })
+	// one obligation per key: keep the worst verdict
+	rank := map[Status]int{Info: 0, Discharged: 1, Undecided: 2, Violated: 3}
+	var dd []Obligation
+	for _, x := range o {
+		if n := len(dd); n > 0 && dd[n-1].Key == x.Key {
+			if rank[x.Status] > rank[dd[n-1].Status] {
+				dd[n-1] = x
+			}
+			continue
+		}
+		dd = append(dd, x)
+	}
+	o = dd
 	n := 0
 	for _, x := range o {
 		if x.Status != Info {
